@@ -7,7 +7,7 @@ Extraction Language OCaml.
 Extraction Blacklist String List Int Z Str Unix Array Bytes Char.
 
 Extraction "model.ml"
-  Base.Res.res
+  Base.Prelude.ex_base Base.Res.res
   Codec.Trg.trg_decode Codec.Trg.trg_obs Codec.Trg.trg_encode
   Codec.Adc.adc_decode Ident.Tables.adc_macs Ident.Tables.pwb_macs Ident.Tables.pwb_devices
   Codec.Chrono.cb_fifo Codec.Chrono.cb_feed Codec.Chrono.entry_obs.
